@@ -720,3 +720,20 @@ Proof.
   assert (Hhi : hi <= length l) by (unfold hi, lo, slice_hi, slice_lo; lia).
   apply InvD_disown_sub; [assumption|]. apply slice_split; assumption.
 Qed.
+
+(* ------------------------------------------------------------------ the inherited dict mutators *)
+Lemma InvD_init_update_seq hpf g kvs : forall s, InvD hpf s -> InvD hpf (fst (init_update_seq all_fixed s hpf g kvs)).
+Proof.
+  induction kvs as [|[k v] t IH]; intros s HD; simpl; [assumption|]. destruct k as [k|]; [|assumption].
+  pose proof (InvD_init_setitem hpf s g k v HD) as H1.
+  destruct (init_setitem all_fixed s hpf g k v) as [s' r]. simpl in H1. destruct r; [apply IH|]; assumption.
+Qed.
+Lemma InvD_init_update hpf s g kvs : InvD hpf s -> InvD hpf (fst (init_update all_fixed s hpf g kvs)).
+Proof.
+  intros HD. unfold init_update. pose proof (InvD_init_update_seq hpf g kvs s HD) as H1.
+  destruct (init_update_seq all_fixed s hpf g kvs) as [s' r]. simpl in H1. destruct r; [assumption|]. cbn [all_fixed]. assumption.
+Qed.
+Lemma InvD_init_popitem hpf s g : InvD hpf s -> InvD hpf (fst (init_popitem s g)).
+Proof. intros HD. unfold init_popitem. destruct (inits s g) as [|[k v] t]; [assumption|]. apply InvD_init_delitem. assumption. Qed.
+Lemma InvD_init_setdefault hpf s g key v : InvD hpf s -> InvD hpf (fst (init_setdefault all_fixed s hpf g key v)).
+Proof. intros HD. unfold init_setdefault. destruct (init_get _ _); [assumption|]. apply InvD_init_setitem. assumption. Qed.
